@@ -1,6 +1,7 @@
 (* C11: incremental clause edits.  Property theorems only (proofs: Proofs/EditReduce.v,
    EditRenumber.v, EditUnit.v, EditSpec.v, EditDispatch.v); see bin/propcfg/C11.py for the status.
-   The model is the code after the repairs F14-F17 (K23, K25, K26, K34).
+   The model is the code after the repairs F14-F17 (K23, K25, K26, K34) and F23-F28 (K38, K27, K22/K33,
+   K30-K32, K3/K20/K29, K21/K35).
    PARTIAL BY DESIGN: the unit-clause edit is modelled and proved; the bridge / sub-DAG / recompile /
    undo machinery is not modelled - for it there is only the specification edit_spec and the
    correspondence run against its truth table. *)
@@ -57,16 +58,17 @@ Theorem C11_dispatch_cache_hit : forall f a r,
 Proof. exact dispatch_cache_hit. Qed.
 Print Assumptions C11_dispatch_cache_hit.
 
-(* one added unit clause over an existing variable and nothing to remove -> unit path *)
+(* one added unit clause - over an existing or a NEW variable (F27) - and nothing to remove ->
+   unit path *)
 Theorem C11_dispatch_unit : forall f l,
-  cache_hit f = false -> Z.abs l <= ig_nvars f -> dispatch f [[l]] [] = Decided StUnitClause.
+  cache_hit f = false -> dispatch f [[l]] [] = Decided StUnitClause.
 Proof. exact dispatch_unit. Qed.
 Print Assumptions C11_dispatch_unit.
 
 (* ... and the unit path is taken in exactly that case *)
 Theorem C11_dispatch_unit_iff : forall f a r,
   dispatch f a r = Decided StUnitClause <->
-  cache_hit f = false /\ r = [] /\ exists l, a = [[l]] /\ Z.abs l <= ig_nvars f.
+  cache_hit f = false /\ r = [] /\ exists l, a = [[l]].
 Proof. exact dispatch_unit_iff. Qed.
 Print Assumptions C11_dispatch_unit_iff.
 
@@ -76,6 +78,29 @@ Theorem C11_dispatch_removal_not_unit : forall f a r,
 Proof. exact dispatch_removal_not_unit. Qed.
 Print Assumptions C11_dispatch_removal_not_unit.
 
+(* every other edit needs the source clauses: on a d-DNNF that was not compiled from a CNF it is
+   refused with Error - exactly then - and nothing changes (K3, K20, K21, K35 repaired by F28) *)
+Theorem C11_dispatch_error_iff : forall f a r,
+  dispatch f a r = Decided StError <->
+  (a <> [] \/ r <> []) /\ cache_hit f = false /\ from_cnf f = false /\ ~ (r = [] /\ exists l, a = [[l]]).
+Proof. exact dispatch_error_iff. Qed.
+Print Assumptions C11_dispatch_error_iff.
+
+(* an empty clause list of a CNF-compiled d-DNNF is complete: the edited CNF is compiled as a whole
+   (K27 repaired by F24) *)
+Theorem C11_dispatch_empty_from_cnf : forall f a r,
+  (a <> [] \/ r <> []) -> cache_hit f = false -> from_cnf f = true -> stored_cnf_empty f = true ->
+  ~ (r = [] /\ exists l, a = [[l]]) -> dispatch f a r = Decided StRecompile.
+Proof. exact dispatch_empty_from_cnf. Qed.
+Print Assumptions C11_dispatch_empty_from_cnf.
+
+(* the dispatch conditions answer Tautology only for an edit without effective clauses (the
+   bridge computation of the graph-dependent case still can) *)
+Theorem C11_dispatch_tautology_iff : forall f a r,
+  dispatch f a r = Decided StTautology <-> a = [] /\ r = [].
+Proof. exact dispatch_tautology_iff. Qed.
+Print Assumptions C11_dispatch_tautology_iff.
+
 (* the code before F16 (K26): one added unit clause over an existing variable took the unit path
    whatever else the edit removes; add_unit_clause never reads the removals *)
 Theorem C11_dispatch_unit_drops_removal_v0 : forall f l r,
@@ -83,19 +108,30 @@ Theorem C11_dispatch_unit_drops_removal_v0 : forall f l r,
 Proof. exact dispatch_unit_v0. Qed.
 Print Assumptions C11_dispatch_unit_drops_removal_v0.
 
-(* F16 changes the decision of edits with removals only *)
-Theorem C11_dispatch_v0_same_without_removal : forall f a, dispatch f a [] = dispatch_v0 f a [].
+(* F16 changed the decision of edits with removals only *)
+Theorem C11_dispatch_v0_same_without_removal : forall f a, dispatch_v1 f a [] = dispatch_v0 f a [].
 Proof. exact dispatch_v0_same_without_removal. Qed.
 Print Assumptions C11_dispatch_v0_same_without_removal.
 
-(* empty stored clause list (all nnf-loaded models; K3 / K20 / K27): every edit that is not a pure
-   unit edit over an existing variable is answered Tautology, or Recompile when root = node 0 *)
-Theorem C11_dispatch_empty_store : forall f a r,
+(* the code after F16 and before F24 / F27 / F28 (dispatch_v1; K3, K20, K27): with an empty stored
+   clause list - all nnf-loaded models, a CNF without effective clauses - every edit that is not a
+   pure unit edit over an existing variable was answered Tautology (ignored), or Recompile of the
+   edit's clauses alone when root = node 0 *)
+Theorem C11_dispatch_empty_store_v1 : forall f a r,
   cache_hit f = false -> stored_cnf_empty f = true -> (a <> [] \/ r <> []) ->
   (forall l, a = [[l]] -> r = [] -> ig_nvars f < Z.abs l) ->
-  dispatch f a r = Decided (if root_is_node0 f then StRecompile else StTautology).
-Proof. exact dispatch_empty_store. Qed.
-Print Assumptions C11_dispatch_empty_store.
+  dispatch_v1 f a r = Decided (if root_is_node0 f then StRecompile else StTautology).
+Proof. exact dispatch_empty_store_v1. Qed.
+Print Assumptions C11_dispatch_empty_store_v1.
+
+(* F24 / F27 / F28 changed nothing for a pure unit edit over an existing variable and for every
+   other edit on a CNF-compiled d-DNNF with a non-empty clause list *)
+Theorem C11_dispatch_v1_same : forall f a r,
+  from_cnf f = true -> stored_cnf_empty f = false ->
+  (forall l, a = [[l]] -> r = [] -> Z.abs l <= ig_nvars f) ->
+  dispatch f a r = dispatch_v1 f a r.
+Proof. exact dispatch_v1_same. Qed.
+Print Assumptions C11_dispatch_v1_same.
 
 (* ---------- the undo cache: predicate and keys ---------- *)
 Theorem C11_cache_matches_inverse : forall a r, cache_matches a r r a = true.
@@ -181,17 +217,24 @@ Theorem C11_removal_after_simplify_refuted :
 Proof. exact removal_after_simplify_refuted. Qed.
 Print Assumptions C11_removal_after_simplify_refuted.
 
-(* refuted (K38): an edit answered Recompile applies adjust_intern_cnf TWICE (once in
-   transform_to_cnf_from_starting_cnf, once in recompile_everything); the second round removes a
+(* an edit answered Recompile applies the edit to the stored clause list exactly once (K38
+   repaired by F23) *)
+Theorem C11_recompile_stored_once : forall stored a r,
+  recompile_stored stored a r = adjust_intern_cnf stored a r.
+Proof. exact recompile_stored_once. Qed.
+Print Assumptions C11_recompile_stored_once.
+
+(* the code before F23 (K38): adjust_intern_cnf was applied TWICE (once in
+   transform_to_cnf_from_starting_cnf, once in recompile_everything); the second round removed a
    clause that the first round shortened to a removed clause.  CNF {-1 -2}, edit (remove {-1}, add
-   {2}): the compiled list is {2} (2 models) instead of {-1 -2},{2} (1 model) *)
-Theorem C11_recompile_adjusts_twice_refuted :
-  recompile_stored [[-1; -2]] [[2]] [[-1]] = [[2]] /\
-  cnf_models_n (recompile_stored [[-1; -2]] [[2]] [[-1]]) 2 = [[1; 2]; [-1; 2]] /\
+   {2}): the compiled list was {2} (2 models) instead of {-1 -2},{2} (1 model) *)
+Theorem C11_recompile_adjusts_twice_refuted_v0 :
+  recompile_stored_v0 [[-1; -2]] [[2]] [[-1]] = [[2]] /\
+  cnf_models_n (recompile_stored_v0 [[-1; -2]] [[2]] [[-1]]) 2 = [[1; 2]; [-1; 2]] /\
   cnf_models_n (fst (edit_spec [[-1; -2]] 2 [[2]] [[-1]])) 2 = [[-1; 2]] /\
-  cnf_models_n (adjust_intern_cnf [[-1; -2]] [[2]] [[-1]]) 2 = [[-1; 2]].
-Proof. exact recompile_adjusts_twice_refuted. Qed.
-Print Assumptions C11_recompile_adjusts_twice_refuted.
+  cnf_models_n (recompile_stored [[-1; -2]] [[2]] [[-1]]) 2 = [[-1; 2]].
+Proof. exact recompile_adjusts_twice_refuted_v0. Qed.
+Print Assumptions C11_recompile_adjusts_twice_refuted_v0.
 
 (* the code before F14 (K23): removing two different clauses at once removed nothing; the repaired
    code removes both, as the specification *)
@@ -416,18 +459,39 @@ Example ex_c11_reduce :
   reduce_clause [1; 2] [-1; -2] = None /\ reduce_clause [1; 2] [2] = Some [].
 Proof. vm_compute. repeat split. Qed.
 
-(* the dispatch on concrete facts: unit clause over an old / a new variable, nnf-loaded model; a
-   unit clause that comes with a removal takes the general path (before F16: the unit path) *)
+(* the dispatch on concrete facts: unit clause over an old / a new variable on an nnf-loaded and a
+   CNF-loaded model; every other edit is refused on the nnf-loaded model; empty clause list of a
+   CNF-loaded model; a unit clause that comes with a removal takes the general path; the same
+   inputs under the older dispatches *)
 Example ex_c11_dispatch :
-  let nnf := {| cache_hit := false; ig_nvars := 3; stored_cnf_empty := true; root_is_node0 := false |} in
-  let d4r := {| cache_hit := false; ig_nvars := 3; stored_cnf_empty := true; root_is_node0 := true |} in
-  let cnf := {| cache_hit := false; ig_nvars := 3; stored_cnf_empty := false; root_is_node0 := true |} in
-  dispatch nnf [[2]] [] = Decided StUnitClause /\ dispatch nnf [[4]] [] = Decided StTautology /\
-  dispatch d4r [[4]] [] = Decided StRecompile /\ dispatch nnf [] [[2]] = Decided StTautology /\
-  dispatch cnf [[2]] [] = Decided StUnitClause /\
+  let nnf := {| cache_hit := false; ig_nvars := 3; stored_cnf_empty := true; root_is_node0 := false; from_cnf := false |} in
+  let d4r := {| cache_hit := false; ig_nvars := 3; stored_cnf_empty := true; root_is_node0 := true; from_cnf := false |} in
+  let cnf := {| cache_hit := false; ig_nvars := 3; stored_cnf_empty := false; root_is_node0 := true; from_cnf := true |} in
+  let cnf0 := {| cache_hit := false; ig_nvars := 3; stored_cnf_empty := true; root_is_node0 := false; from_cnf := true |} in
+  dispatch nnf [[2]] [] = Decided StUnitClause /\ dispatch nnf [[4]] [] = Decided StUnitClause /\
+  dispatch_v1 nnf [[4]] [] = Decided StTautology /\ dispatch_v1 d4r [[4]] [] = Decided StRecompile /\
+  dispatch nnf [] [[2]] = Decided StError /\ dispatch_v1 nnf [] [[2]] = Decided StTautology /\
+  dispatch d4r [[1; 4]] [] = Decided StError /\
+  dispatch cnf [[2]] [] = Decided StUnitClause /\ dispatch cnf [[5]] [] = Decided StUnitClause /\
+  dispatch_v1 cnf [[5]] [] = GraphDependent /\
   dispatch cnf [[2]] [[1; 3]] = GraphDependent /\ dispatch_v0 cnf [[2]] [[1; 3]] = Decided StUnitClause /\
   dispatch cnf [[1; 2]] [] = GraphDependent /\
+  dispatch cnf0 [[1; 2]] [] = Decided StRecompile /\ dispatch_v1 cnf0 [[1; 2]] [] = Decided StTautology /\
+  dispatch cnf0 [[3]] [[-2; 3]] = Decided StRecompile /\
   prepare [([1; -1], AddC); ([2; 2], AddC); ([], RemoveC); ([3; 1], RemoveC)] = Prepared [[2]] [[3; 1]].
+Proof. vm_compute. repeat split. Qed.
+
+(* the unit edit over a NEW variable: x1 & (x2 <-> x3) over 3 features, add the unit clause -5:
+   feature 4 becomes optional, the models are the old ones with -5 (and either value of 4); an Or
+   root gets a fresh And root *)
+Example ex_c11_unit_new :
+  Models (unit_edit_new ex_c11 3 (-5)) 5 =
+    [[1; 2; 3; 4; -5]; [1; 2; 3; -4; -5]; [1; -2; -3; 4; -5]; [1; -2; -3; -4; -5]] /\
+  check_wf (unit_edit_new ex_c11 3 (-5)) 5 = true /\
+  root_count (unit_edit_new ex_c11 3 (-5)) = 4 /\
+  unit_edit_new [Lit 1; Lit (-1); Or [0; 1]%nat] 1 2 =
+    [Lit (-1); Lit 1; Or [1; 0]%nat; Lit 2; And [3; 2]%nat] /\
+  Models (unit_edit_new [Lit 1; Lit (-1); Or [0; 1]%nat] 1 2) 2 = [[1; 2]; [-1; 2]].
 Proof. vm_compute. repeat split. Qed.
 
 (* the cache predicate: the inverse spelled in another order matches, a partial inverse and a
